@@ -11,7 +11,7 @@ import enum
 import itertools
 import re
 import math
-from typing import Any, Dict, List, Union
+from typing import Any, Dict, List, Optional, Union
 
 import yaml
 
@@ -110,6 +110,23 @@ class LooseSide:
         self.flag = flag
 
 
+class BoolNames(enum.Enum):
+    """An enum whose members are called like YAML booleans."""
+    true = 1
+    false = 2
+    TRUE = 3
+    other = 4
+
+
+class Both:
+    """`first` takes anything, `second` the enum: for the aliased family."""
+    def __init__(self, first: Any, second: BoolNames,
+                 third: Union[bool, float, str] = '') -> None:
+        self.first = first
+        self.second = second
+        self.third = third
+
+
 OCTAL = re.compile(r'^0o[0-7]+$')
 
 
@@ -133,8 +150,15 @@ class Env:
             Union[EnumSide, LooseSide], EnumSide, LooseSide, Tri)
         self.load_alt2 = yatiml.load_function(
             Union[LooseSide, EnumSide], LooseSide, EnumSide, Tri)
+        # bool_union_fix without bool next to it stands for bool all the same
+        self.load_buf = yatiml.load_function(
+            Union[int, float, str, yatiml.bool_union_fix])
+        self.load_bufs = yatiml.load_function(
+            Dict[str, Optional[yatiml.bool_union_fix]])
+        self.load_both = yatiml.load_function(Both, BoolNames)
         fns = (self.load_any, self.load_map, self.load_seq, self.load_wrap,
-               self.load_wraps, self.load_alt, self.load_alt2)
+               self.load_wraps, self.load_alt, self.load_alt2, self.load_buf,
+               self.load_bufs, self.load_both)
         if mode == 'custom-after':
             for f in fns:
                 try:
@@ -201,6 +225,7 @@ CONTEXTS = [
      lambda n: n.value[0][1] if isinstance(n, yaml.MappingNode)
      and len(n.value) == 2 else None,
      lambda v: v.flag, 'load_alt2'),
+    ('wrapbuf', lambda s: s, lambda n: n, lambda v: v, 'load_buf'),
 ]
 
 
@@ -293,7 +318,9 @@ def check_e2e(ctx, s, env, near=False):
         except Exception as e:      # noqa
             v, exc = None, e
         case = {'s': s, 'context': name, 'mode': env.mode}
-        if name.startswith('wrapalt'):
+        if name == 'wrapbuf':
+            name = name + ' (Union with bool_union_fix but without bool)'
+        elif name.startswith('wrapalt'):
             name = name + ' (attribute next to an enum alternative)'
         elif name.startswith('wrap'):
             name = name + ' (short form of a user class)'
@@ -414,6 +441,56 @@ def check_nonspecific(ctx, s, env):
                 type(v).__name__, feature(s, False, S.is_float12)),
             'document %r (string %r with the non-specific tag) loads as %r'
             % (text, s, v), {'s': s, 'ns': 1})
+
+
+def check_aliased(ctx, env):
+    """One anchored plain scalar, referenced where the model says Any / bool
+    and where it says an enum with members called like booleans: each
+    reference is typed by its own position."""
+    for w in sorted(S.BOOL_WORDS) + ['other', '1.5', 'x']:
+        for text, what in (
+                ('first: &v %s\nsecond: *v\n' % w, 'anchor-first'),
+                ('second: &v %s\nfirst: *v\n' % w, 'anchor-at-enum'),
+                ('first: &v %s\nsecond: *v\nthird: *v\n' % w, 'three-uses'),
+                ('third: &v %s\nsecond: *v\nfirst: *v\n' % w,
+                 'three-uses-reversed')):
+            ctx.count('aliased_scalar_loads')
+            case = {'s': w, 'aliased': text, 'mode': env.mode}
+            try:
+                v = env.load_both(text)
+            except yatiml.RecognitionError:
+                if w in BoolNames.__members__:
+                    ctx.violation(
+                        'C09 e2e aliased-scalar rejected',
+                        'document %r (the scalar names a member of the enum '
+                        'and is acceptable at the other positions) was '
+                        'rejected' % text, case)
+                continue
+            except Exception as e:      # noqa
+                ctx.violation(
+                    'C09 e2e aliased-scalar raised %s' % type(e).__name__,
+                    'document %r raised %s: %s' % (text, type(e).__name__,
+                                                   e), case)
+                continue
+            want = (w in S.TRUE_WORDS) if S.is_bool12(w) else (
+                S.float12_value(w) if S.is_float12(w) else w)
+            for attr in ('first', 'third'):
+                got = getattr(v, attr)
+                if attr == 'third' and 'third' not in text:
+                    continue
+                if type(got) is not type(want) or got != want:
+                    ctx.violation(
+                        'C09 e2e aliased-scalar typed-by-other-reference '
+                        '(%s)' % what,
+                        'document %r: %s is %r, expected %r (the plain '
+                        'scalar %r at a position that is no enum)' % (
+                            text, attr, got, want, w), case)
+                    break
+            if v.second is not BoolNames[w]:
+                ctx.violation(
+                    'C09 e2e aliased-scalar enum-reference wrong',
+                    'document %r: second is %r' % (text, v.second), case)
+    ctx.case(['aliased'], True)
 
 
 def outcome(v, exc, verbose=False):
@@ -556,6 +633,9 @@ def shard(ctx):
             check_nonspecific(ctx, s, env)
         if ctx.mine(k):
             check_two_styles(ctx, w, env)
+    if ctx.shard == 0:
+        for mode in ('fresh', 'custom-before'):
+            check_aliased(ctx, get_env(mode))
     # signed .nan: whether it is a float is left open, but what it resolves
     # to must agree with what is constructed
     for k2, w in enumerate([sg + n for sg in '+-' for n in S.NAN_WORDS]):
@@ -596,7 +676,9 @@ def shard(ctx):
 def replay(ctx, case):
     env = get_env(case.get('mode', 'fresh'))
     check_resolver(ctx, case['s'], env)
-    if case.get('two'):
+    if case.get('aliased'):
+        check_aliased(ctx, env)
+    elif case.get('two'):
         check_two_styles(ctx, case['s'], env)
     elif case.get('ns'):
         check_nonspecific(ctx, case['s'], env)
